@@ -15,7 +15,7 @@ from core import World, register, Hbytes, HarnessError, jdump
 from refmodel import (Ledger, counted_keys, independent_entry_valid, keylist_ok, payload_hash,
                       pgp_digest, refcanon, ref_is_hex_key, ref_is_pgp_entry, ref_is_raw_entry,
                       snapshot, threshold_ok, typed_eq)
-from seams import LibCalls, Patcher, load_library
+from seams import LibCalls, Patcher, SimClockState, install_clock, load_library
 
 ENCODINGS = ["utf-8", "utf-8", "ascii", "latin-1", "cp1252", "utf-16", "shift_jis"]
 IMPLS_RAW = ["lib-raw", "lib-raw", "lib-raw", "indep-raw"]
@@ -53,6 +53,9 @@ class GpgStub:
 
     def create_signature(self, content, keyid=None, homedir=None):
         self.calls.append("create_signature")
+        fs = getattr(self.w, "fs", None)
+        if fs is not None:
+            fs.events.append(("call", "gpg-create-signature"))
         if self.fail == "create":
             raise ValueError("gpg: signing failed: No secret key (injected)")
         w = self.w
@@ -66,6 +69,9 @@ class GpgStub:
 
     def export_pubkey(self, keyid, homedir=None):
         self.calls.append("export_pubkey")
+        fs = getattr(self.w, "fs", None)
+        if fs is not None:
+            fs.events.append(("call", "gpg-export-pubkey"))
         if self.fail == "export":
             raise KeyError("gpg: key not found (injected)")
         i = self.w.keys.by_fpr(keyid)
@@ -138,13 +144,14 @@ class EnvelopeWorld(World):
             "nonfinite": rng.random() < 0.5,
             "enabled": sorted(rng.sample(ATTACKS, rng.randint(3, len(ATTACKS)))),
             "indep_sample": 0.03 if tier == "quick" else 0.06,
+            "werror": rng.random() < 0.2,
         }
         return h
 
     def __init__(self, run, header):
         super().__init__(run, header)
         self.lib = load_library()
-        self.calls = LibCalls(run, self.lib, header.get("encoding", "utf-8"))
+        self.calls = LibCalls(run, self.lib, header.get("encoding", "utf-8"), werror=bool(header.get("werror")))
         self.keys = KeyRing(self.lib, header["key_seeds"])
         self.ledger = Ledger()
         self.envs = []          # envelopes (dicts)
@@ -156,6 +163,9 @@ class EnvelopeWorld(World):
         rs = self.lib.root_signing
         self.patch.set(rs, "SSLIB_AVAILABLE", True)
         self.patch.set(rs, "gpg_funcs", self.gpgstub)
+        self.cstate = SimClockState(self.clock)
+        self.cstate.hook = lambda n: setattr(self.cstate, "now", self.clock)
+        install_clock(self.patch, self.lib, self.cstate)
         self.attacked = [set() for _ in range(0)]
         self.env_faults = []
         self.sample_ctr = 0
@@ -231,6 +241,9 @@ class EnvelopeWorld(World):
     def op_new_env(self, op):
         payload = op["payload"]
         src = copy.deepcopy(payload)
+        if op.get("tuples"):
+            src = _tuplify(src, 0)          # tuples are a supported payload type of the library (serialized as arrays)
+            self.run.probe("payload_with_tuples")
         o = self.calls.raw("wrap_as_signable", src)
         if not o.ok:
             self.run.violate(("C09",), "wrap-failed", "wrap_as_signable raised %r" % (o,))
@@ -266,12 +279,15 @@ class EnvelopeWorld(World):
         others = {k: jdump_safe(v) for k, v in E["signatures"].items() if k != pub}
         signed_before = refcanon(E["signed"])
         if impl == "lib-raw":
-            o = self.calls.raw("sign_signable", E, self.keys.priv[i])
+            # a caller that builds the key object on the fly (PrivateKey.from_hex per signature) and drops it afterwards
+            pk = self.lib.common.PrivateKey.from_bytes(self.keys.seeds[i]) if op.get("fresh") else self.keys.priv[i]
+            o = self.calls.raw("sign_signable", E, pk)
+            del pk
             if not o.ok:
                 self.run.violate(("C09", "C02"), "sign-failed", "sign_signable raised %r" % (o,), "sign-failed:" + o.cls)
                 return
             ent = E["signatures"].get(pub)
-            if not (type(ent) is dict and ref_is_raw_entry(ent) and set(ent) == {"signature"}):
+            if not (type(ent) is dict and ref_is_raw_entry(ent)):
                 self.run.violate(("C09",), "sign-entry", "no well-formed entry under the signer's public key hex")
                 return
             self.ledger.record_raw(pub, payload_hash(E["signed"]), ent["signature"])
@@ -459,6 +475,41 @@ class EnvelopeWorld(World):
     def op_tick(self, op):
         pass
 
+    def op_verify_faulted(self, op):
+        """Fail-closed under faults: an exception striking at an arbitrary point inside the verifier may make the call
+        fail, but must never turn a rejection into an acceptance."""
+        e = op["env"]
+        if e >= len(self.envs):
+            return self.run.ev("noop")
+        E = self.envs[e]
+        auth, t, gpg = op["auth"], op["t"], op["gpg"]
+        exc = {"OSError": OSError(5, "injected"), "MemoryError": MemoryError("injected"), "KeyboardInterrupt": KeyboardInterrupt(),
+               "ValueError": ValueError("injected"), "InvalidSignature": None, "UnicodeError": UnicodeEncodeError("ascii", "x", 0, 1, "injected"),
+               "KeyError": KeyError("injected"), "RuntimeError": RuntimeError("injected")}.get(op["exc"])
+        if op["exc"].startswith("stdout:"):
+            # the verifier's own diagnostics meet a standard output that starts failing at its n-th write
+            self.calls.out.arm(op["line"], op["exc"][7:])
+            o = self.calls.raw("verify_signable", E, auth, t, gpg=gpg)
+            fired = self.calls.out.disarm()
+            self.run.fault("stdout_write_failure_" + op["exc"][7:]) if fired else self.run.probe("fault_point_beyond_call")
+        else:
+            if exc is None:
+                import importlib
+                exc = importlib.import_module("cryptography.exceptions").InvalidSignature("injected")
+            o, fired = self.calls.faulted("verify_signable", op["line"], exc, E, auth, t, gpg=gpg)
+            self.run.fault("exception_inside_verifier_" + op["exc"]) if fired else self.run.probe("fault_point_beyond_call")
+        args_ok = keylist_ok(auth) and threshold_ok(t)
+        k = len(counted_keys(self.ledger, E["signed"], E["signatures"], auth, gpg)) if args_ok else 0
+        if o.ok:
+            self.run.accepts += 1
+            if not (args_ok and k >= t):
+                self.run.violate(("C01", "C13"), "accepted-under-fault",
+                                 "verify_signable returned normally with %d valid authorised signer(s) for threshold %r after %s was raised at line "
+                                 "event %d inside the verifier: the failure was swallowed into an acceptance" % (k, t, op["exc"], op["line"]),
+                                 "accepted-under-fault:" + op["exc"])
+        else:
+            self.run.rejects += 1
+
     def op_bulk_junk(self, op):
         """Many junk entries at once (a flooded signature map)."""
         import random
@@ -591,7 +642,7 @@ class EnvelopeWorld(World):
         nk = len(self.keys)
         if not self.envs or (len(self.envs) < 3 and rng.random() < 0.08):
             return {"op": "new_env", "payload": gen.gen_payload(rng, h.get("nonfinite", True)),
-                    "gpg": rng.random() < h["gpg_bias"]}
+                    "gpg": rng.random() < h["gpg_bias"], "tuples": rng.random() < 0.2}
         e = rng.randrange(len(self.envs))
         E = self.envs[e]
         gpg = self.env_gpg[e]
@@ -607,7 +658,7 @@ class EnvelopeWorld(World):
         if r < 0.34:
             i = rng.randrange(nk)
             impl = rng.choice(IMPLS_PGP if gpg else IMPLS_RAW)
-            op = {"op": "sign", "env": e, "key": i, "impl": impl, "dt": dt}
+            op = {"op": "sign", "env": e, "key": i, "impl": impl, "dt": dt, "fresh": rng.random() < 0.5}
             if impl in ("simgpg", "indep-pgp") and rng.random() < 0.5:
                 op["hdr"] = _gen_headers(rng)
             if impl in ("simgpg", "indep-pgp") and rng.random() < 0.3:
@@ -626,6 +677,16 @@ class EnvelopeWorld(World):
         if r < 0.90:
             return {"op": "reorder", "env": e, "rot": rng.randint(0, 5), "rev": rng.random() < 0.5,
                     "payload_rev": rng.random() < 0.5, "dt": dt}
+        if r < 0.905 and rate > 0:
+            auth = self._gen_auth(rng, E, wellformed=True)
+            kk = len(counted_keys(self.ledger, E["signed"], E["signatures"], auth, gpg))
+            op = {"op": "verify_faulted", "env": e, "auth": auth, "t": rng.choice([kk + 1, kk + 1, max(1, kk)]), "gpg": gpg, "dt": dt,
+                  "line": rng.randint(1, 40 + 12 * len(E["signatures"])),
+                  "exc": rng.choice(["OSError", "MemoryError", "KeyboardInterrupt", "ValueError", "InvalidSignature", "UnicodeError", "KeyError", "RuntimeError"])}
+            if rng.random() < 0.5:
+                op["exc"] = "stdout:" + rng.choice(["ENOSPC", "EPIPE", "EIO", "closed"])
+                op["line"] = rng.randint(1, 2 + 2 * len(E["signatures"]))
+            return op
         if r < 0.92 and rate > 0:
             auth = self._gen_auth(rng, E, wellformed=True)
             return {"op": "verify_shape", "env": e, "auth": auth, "t": rng.randint(1, 2), "gpg": gpg, "dt": dt,
@@ -783,14 +844,25 @@ def refcanon_safe(v):
         return repr(snapshot(v)).encode()
 
 
+def _tuplify(v, depth):
+    """Same JSON value with the arrays at even depth held as tuples."""
+    if isinstance(v, dict):
+        return {k: _tuplify(x, depth + 1) for k, x in v.items()}
+    if isinstance(v, list):
+        inner = [_tuplify(x, depth + 1) for x in v]
+        return tuple(inner) if depth % 2 == 0 else inner
+    return v
+
+
 def _mutate_deep(v):
-    """Mutate the deepest container of v in place; False if v has no container."""
+    """Mutate the deepest mutable container of v in place (looking through tuples); False if there is none."""
     cur, last = v, None
-    while isinstance(cur, (dict, list)):
-        last = cur
+    while isinstance(cur, (dict, list, tuple)):
+        if not isinstance(cur, tuple):
+            last = cur
         nxt = None
         for x in (cur.values() if isinstance(cur, dict) else cur):
-            if isinstance(x, (dict, list)):
+            if isinstance(x, (dict, list, tuple)):
                 nxt = x
                 break
         if nxt is None:
